@@ -310,6 +310,13 @@ class ExprMixin:
             if f:
                 return f(a, b)
         if isinstance(op, ast.Add):
+            for x, y in ((a, b), (b, a)):
+                if is_str(y) and isinstance(x, SV) and x.ty.name == "Opt" and x.ty.args[0] in (STR, ASTR):
+                    # None + str raises TypeError
+                    if x is a:
+                        a = ctx.unopt(a, "TypeError", "None + str")
+                    else:
+                        b = ctx.unopt(b, "TypeError", "str + None")
             if is_str(a) and is_str(b):
                 return ctx.strs.concat(a, b)
             if isinstance(a, Cell) and isinstance(b, Cell) and a.kind == b.kind == "list":
